@@ -901,6 +901,47 @@ impl<'r> Builder<'r> {
             self.cur_tx.outputs.push(o);
         }
 
+        if self.cfg.balanced {
+            // final output = everything consumed - everything else produced - fees
+            let mut e: Option<E> = None;
+            let mut add = |e: &mut Option<E>, t: E, plus: bool| {
+                *e = Some(match e.take() {
+                    None => {
+                        if plus {
+                            t
+                        } else {
+                            E::Neg(Box::new(E::Paren(Box::new(t))))
+                        }
+                    }
+                    Some(acc) => {
+                        if plus {
+                            E::Add(Box::new(acc), Box::new(E::Paren(Box::new(t))))
+                        } else {
+                            E::Sub(Box::new(acc), Box::new(E::Paren(Box::new(t))))
+                        }
+                    }
+                });
+            };
+            for i in &self.cur_tx.inputs {
+                add(&mut e, E::InputValue(i.name.clone()), true);
+            }
+            for m in &self.cur_tx.mints {
+                add(&mut e, m.amount.clone(), true);
+            }
+            for b in &self.cur_tx.burns {
+                add(&mut e, b.amount.clone(), false);
+            }
+            for o in &self.cur_tx.outputs {
+                if let Some(a) = &o.amount {
+                    add(&mut e, a.clone(), false);
+                }
+            }
+            add(&mut e, E::Fees, false);
+            let to = E::Party(self.party());
+            self.cur_tx.outputs.push(Output { to: Some(to), amount: e, ..Default::default() });
+            self.tag("balanced-change-output");
+        }
+
         if self.rng.chance(1, 3) {
             let since = if self.rng.bool() { Some(self.validity_expr()) } else { None };
             let until = if since.is_none() || self.rng.bool() { Some(self.validity_expr()) } else { None };
